@@ -32,6 +32,8 @@ pub fn check(o: &FOutcome) -> Checked {
     let mut barriers = 0;
     let mut limit_changed = false;
     let mut cur_limit = o.cfg.discard;
+    let mut dispatched_since_change = false;
+    let mut change_ts = 0u64;
     let mut drain_ts: Option<u64> = None;
     let mut stop_ts: Option<u64> = None;
     let mut deaths = 0u64;
@@ -43,6 +45,9 @@ pub fn check(o: &FOutcome) -> Checked {
         match e {
             FEv::Dispatch { id, sent, .. } => {
                 dispatch.insert(*id, (*ts, *sent));
+                if *sent {
+                    dispatched_since_change = true;
+                }
             }
             FEv::Start { id, .. } => {
                 started.insert(*id, *ts);
@@ -64,7 +69,15 @@ pub fn check(o: &FOutcome) -> Checked {
             FEv::Op(s) => {
                 if s.starts_with("set discard") {
                     limit_changed = true;
-                    cur_limit = None; // unknown until re-derived; only the unchanged-limit window is checked
+                    // "set discard None" | "set discard Some((L, newest))"
+                    cur_limit = s.split("Some((").nth(1).and_then(|x| {
+                        let mut it = x.trim_end_matches(')').split(", ");
+                        let l = it.next()?.parse::<usize>().ok()?;
+                        let newest = it.next()? == "true";
+                        Some((l, newest))
+                    });
+                    dispatched_since_change = false;
+                    change_ts = *ts;
                 }
                 if s.starts_with("kill") || s.starts_with("resize") {
                     last_disturb = *ts;
@@ -85,6 +98,16 @@ pub fn check(o: &FOutcome) -> Checked {
                 if let (Some((limit, _)), false, true, false) = (o.cfg.discard, limit_changed, router.factory_queued(), o.cfg.priority_queue) {
                     if *depth > limit {
                         v.push(("queue-over-limit".into(), format!("factory queue holds {depth} jobs with a discard limit of {limit}"), "queue-over-limit".into()));
+                    }
+                }
+                // after the limit was changed: in Oldest mode the next processed dispatch sheds down to the new limit
+                // (Newest mode only refuses newcomers, so an excess left over from a higher limit may legitimately remain)
+                // (decidable for plain Queuer routing, where a job that has neither started nor been discarded can only sit in the
+                // factory queue: such a job, dispatched after the change, proves that the shedding step ran under the new limit)
+                let enqueued_since_change = dispatch.iter().any(|(j, (dts, sent))| *sent && *dts > change_ts && *dts < *ts && !started.contains_key(j) && !discards.iter().any(|d| d.1 == *j));
+                if let (Some((limit, false)), true, true, true, false) = (cur_limit, limit_changed, dispatched_since_change && enqueued_since_change, matches!(router, RouterKind::Queuer), o.cfg.priority_queue) {
+                    if *depth > limit && drain_ts.is_none() && o.cfg.rate.is_none() {
+                        v.push(("queue-over-limit".into(), format!("factory queue holds {depth} jobs although the discard limit was set to {limit} (oldest-first shedding) and a dispatch has been processed since"), "queue-over-limit".into()));
                     }
                 }
                 if let (Some((limit, _)), false, false, false) = (o.cfg.discard, limit_changed, router.factory_queued(), o.cfg.priority_queue) {
